@@ -181,7 +181,7 @@ PROPERTIES = {
         "level": "proof",
         "explanation": "AtomicPosition::{inc,dec,set,reset}, ProgressState getters/setters and BarState::{set_length,inc_length,dec_length,unset_length,tick,reset,finish_using_style} extracted from /repo/src and verified by Verus against wrap-around / saturation equations written from the property text, with frame clauses (nothing else writes position or length). fraction() is verified over the reals in the c09_estimator unit (in [0,1], 0 for unknown length and at position 0, 1 for length 0 and exactly when position >= length > 0, otherwise the quotient); its f32 side is decided by a loop-free full-domain Kani harness in the thorough tier.",
         "level_text": "Deductive proof (Verus) for every position, length, delta and bar state that each bookkeeping operation computes exactly the documented value (wrapping at 2^64 without panicking for the position, saturating for the length) and touches nothing else; the completed fraction is proved within [0,1] with its corner cases for all 2^64 x (2^64+1) inputs by Kani/CBMC on the unmodified function (thorough tier).",
-        "level_note": "Assumed, not decided: concurrent inc/dec from several threads are not lost (atomicity of portable_atomic fetch_add/fetch_sub; schedules are outside contract-based verification) -- only the per-call equations are proved. Arc sharing between ProgressBar.pos and BarState.state.pos is modelled as a plain field. Callees BarState::draw / update_estimate_and_draw enter through their frame contract (see stubbed_callees in the evidence). Quick tier runs the Verus unit only; the Kani fraction harness (several minutes) runs in the thorough tier.",
+        "level_note": "Schedules are outside contract-based verification; what is proved instead is the code-level condition under which concurrent inc / dec cannot be lost: each performs exactly one atomic read-modify-write on the position and no plain store (ghost operation counters in the atomics shim). The atomicity of portable_atomic's fetch_add / fetch_sub themselves is assumed. Arc sharing between ProgressBar.pos and BarState.state.pos is modelled as a plain field. Callees BarState::draw / update_estimate_and_draw enter through their frame contract (see stubbed_callees in the evidence). Quick tier runs the Verus unit only; the Kani fraction harness (several minutes) runs in the thorough tier.",
         "assumptions": ["atomics are sequential cells; concurrent schedules not modelled", "IEEE-754 semantics as implemented by CBMC (thorough tier)"],
     },
 }
